@@ -1,6 +1,8 @@
-(* PINNED copy of Gen/C13Facts.v (the facts of the source when the check was written); used only when T1 fails, so that the case files still compile *)
+(* PINNED copy of Gen/C13Facts.v (the facts of the source when the check was last brought in line); used only when T1 fails, so that the case files still compile *)
 From SF Require Import C13.Session.
-Definition gen_cfg : cfg := mkCfg true true true true NLower NLower true.
+Definition gen_cfg : cfg := mkCfg false true true true NLower NLower true true true.
 (* session.sql: lookup key <table>.name; target = last CTE of the view's chain; CTE names already present are
    skipped; added CTEs follow the query's own; qualify (default True) runs first on the catalog's schema cache *)
 Definition splice_shape_recognised : bool := true.
+(* transforms.replace_id_value renames only identifiers that name a table (not part of the Coq model: CTE hash names) *)
+Definition cte_rename_tables_only : bool := true.
